@@ -28,6 +28,9 @@ def ev(node, atom, inl, depth=0):
     if k == "bin" and node["op"] == "||":
         return ev(node["lhs"], atom, inl, depth + 1) or ev(node["rhs"], atom, inl, depth + 1)
     if k == "path" and "::" not in node["p"] and inl is not None:
+        v = atom(node["p"])                       # the name as written first (a rule may give a value to a local by name)
+        if isinstance(v, bool):
+            return v
         init = inl._init_of(node, node["p"])
         if init is not None:
             return ev(init, atom, inl, depth + 1)
